@@ -14,7 +14,7 @@ from symx.scalar import SymBool, SymReal
 from .common import tensor_of, term_of
 
 PID = "C18"
-LEVEL = "other"
+LEVEL = "model_checking"
 CLAIM = (
     "Bounded symbolic verification of tf_pwa.data: the batch index arithmetic of _data_split is executed with a symbolic sample size "
     "n (0..12) and batch size b (1..13) by a path-forking executor and z3 (linear integer arithmetic) decides on every path that the "
